@@ -163,13 +163,16 @@ static void c04_boundary(int shard, int nshards, const hz::Args& a, hz::Result& 
   std::vector<long long> B = {INT64_MIN, INT64_MIN + 1, -(1LL << 62), -146097, -366, -365, -1, 0, 1, 12, 13, 28, 31, 32, 59, 60, 365, 366, 146097, 1LL << 62, INT64_MAX - 1, INT64_MAX};
   if (a.thorough()) { const long long more[] = {29, 30, 61, 146096, 146098, -364, -367}; for (long long m : more) B.push_back(m); }
   const size_t n = B.size();
+  // the month field additionally takes the values around multiples of 12 (n_mon's special cases)
+  std::vector<long long> BM = B;
+  for (long long m : {-25LL, -24LL, -23LL, -13LL, -12LL, -11LL, 11LL, 23LL, 24LL, 25LL, -2400LL, 2401LL}) BM.push_back(m);
   long long idx = 0;
-  for (size_t i0 = 0; i0 < n; ++i0) for (size_t i1 = 0; i1 < n; ++i1) {
+  for (size_t i0 = 0; i0 < n; ++i0) for (size_t i1 = 0; i1 < BM.size(); ++i1) {
     if (static_cast<int>((idx++) % nshards) != shard) continue;
-    hz::begin_case(1000000 + i0 * n + i1, "C04 boundary product y=" + std::to_string(B[i0]) + " m=" + std::to_string(B[i1]));
+    hz::begin_case(1000000 + i0 * BM.size() + i1, "C04 boundary product y=" + std::to_string(B[i0]) + " m=" + std::to_string(BM[i1]));
     if (a.time_up()) { r.exhaustive = false; r.note("deadline in C04 boundary product"); return; }
     for (size_t i2 = 0; i2 < n; ++i2) for (size_t i3 = 0; i3 < n; ++i3) for (size_t i4 = 0; i4 < n; ++i4) for (size_t i5 = 0; i5 < n; ++i5) {
-      long long f[6] = {B[i0], B[i1], B[i2], B[i3], B[i4], B[i5]};
+      long long f[6] = {B[i0], BM[i1], B[i2], B[i3], B[i4], B[i5]};
       c04_one(f, r, ((i2 + i3 + i4 + i5) % 17) == 0, "boundary-product");
     }
   }
